@@ -582,3 +582,25 @@ for _u in _c01["UNITS"]:
         _u.template = "../C01/" + _u.template
         UNITS.append(_u)
 META["trusted_base"] = list(META.get("trusted_base", [])) + ["units c01.* are the C01 units of the same name (specs/C01/hops_create.c, hops_heap_create.c) with their trusted base"]
+
+
+# ---- thread_queue::on_start_thread (added by main after seeded change C12-5 was missed): pre-allocated objects establish the free-list invariant ----
+LOOP_PREALLOC = ("__CPROVER_assigns(i, g_new, g_new_live, g_pushes)\n"
+                 "__CPROVER_loop_invariant(0 <= i && (i <= self->parameters_.init_threads_count_ || i == 0) && g_pushes == i && !g_new_live && self->mtx_.locked)")
+UNITS.append(Unit("heap.on_start_thread", "prealloc.c", enforce="on_start_thread", lifts={"body": Lift(TQ,
+    r"void on_start_thread\(std::size_t[^)]*\)", rules=[
+        Sub(r"\bstatic_assert\s*\((?:[^;\"]|\"(?:[^\"\\]|\\.)*\")*\);", "", None),
+        Sub(r"\b(thread_heap_\w+_)\.reserve\(", r"heap_reserve(&\1, ", None),
+        Sub(r"\b(thread_heap_\w+_)\.(?:emplace_back|push_back)\(", r"heap_push_back(&\1, ", None),
+        Guard(r"std::(?:lock_guard|unique_lock|scoped_lock)\s*(?:<[^;()]*>)?\s*\w+\s*\(\s*(\w+)\s*\)\s*;", r"mutex_lock(&\1);", r"mutex_unlock(&\1);", 1),
+        Sub(r"(?:threads::detail::)?thread_init_data (\w+);", r"struct thread_init_data \1;", None),
+        Sub(r"(?:threads::detail::)?thread_id_addref::(\w+)", r"thread_id_addref_\1", None),
+        Sub(r"(?:threads::detail::)?thread_data\s*\*", "struct thread_data*", None),
+        Sub(r"(?:threads::detail::)?thread_data_stackful::create\(\s*(\w+),", r"create_stackful(&\1,", None),
+        Sub(r"\b(\w+)->init\(\)", r"thread_init(\1)", None),
+        Sub(r"\bthis\b", "self", None),
+        Members(["parameters_", "thread_heap_small_", "thread_heap_medium_", "thread_heap_large_", "thread_heap_huge_", "thread_heap_nostack_", "mtx_"],
+                optional=["thread_heap_small_", "thread_heap_medium_", "thread_heap_large_", "thread_heap_huge_", "thread_heap_nostack_"]),
+    ], loops={1: LOOP_PREALLOC, "count": 1})}, funcs=[TQ + ": thread_queue::on_start_thread"], min_obligations=8,
+    doc="I: every pre-allocated task object is created with the stack size CONFIGURED for the free list it is put on (symbolic "
+        "init_threads_count, all configurations of the sizes), under the queue lock, none leaked"))
